@@ -126,6 +126,11 @@ type TransferOpts struct {
 	// TailCheck, if > 0, makes every reader wait this long after its last
 	// expected byte and report any further byte as a violation (exactly-once).
 	TailCheck time.Duration
+	// Abandon[i] = d > 0: the client application of session i closes its
+	// connection d after it was opened, whatever is still in flight (the user
+	// pressed stop). What that session reports afterwards is the caller's to
+	// ignore; the other sessions must not notice.
+	Abandon map[int]time.Duration
 }
 
 type classifyCtx struct {
@@ -245,6 +250,20 @@ func RunTransfer(env *Env, progs []SessProg, opts TransferOpts) *RunResult {
 			conns[i].c = c
 			connMu.Unlock()
 			bump(1)
+			if d := opts.Abandon[i]; d > 0 {
+				t := time.AfterFunc(d, func() {
+					c.Close()
+					// its server application notices and gives up a little later
+					time.AfterFunc(1500*time.Millisecond, func() {
+						connMu.Lock()
+						if conns[i].s != nil {
+							conns[i].s.Close()
+						}
+						connMu.Unlock()
+					})
+				})
+				defer t.Stop()
+			}
 
 			upKey := StreamKey(opts.Salt, i, 0)
 			downKey := StreamKey(opts.Salt, i, 1)
@@ -272,9 +291,17 @@ func RunTransfer(env *Env, progs []SessProg, opts TransferOpts) *RunResult {
 				runReader(c, downKey, prog.Down, &sr.Down, bump, abort, opts.TailCheck, func(off int64, got []byte) string { return cc.classify(i, 1, off, got) })
 			}()
 			// server side
-			sc, err := env.ServerSide(opts.IdxBase+i, opts.MaxWall)
+			sideWait := opts.MaxWall
+			if d := opts.Abandon[i]; d > 0 {
+				sideWait = d + 3*time.Second // it may be gone before the server application ever saw it
+			}
+			sc, err := env.ServerSide(opts.IdxBase+i, sideWait)
 			if err != nil {
 				sr.OpenErr = "server side: " + err.Error()
+				if opts.Abandon[i] > 0 {
+					inner.Wait()
+					return
+				}
 				doAbort()
 				inner.Wait()
 				return
